@@ -142,6 +142,11 @@ class Check:
                 raise AnalysisError(f'{fn}: `if {unparse(node.test, 80)}` switches behaviour at a series length / size of {k}, beyond the lengths '
                                     f'the scenarios explore (<= {self.LENGTH_BOUND}); the {"else" if then_arm else "then"} arm was never analysed', node)
 
+        for node, step, blocks, fn in Interp.strides.values():
+            if step > 3 and blocks <= 1:
+                raise AnalysisError(f'{fn}: `{unparse(node, 80)}` works through its input in blocks of {step}; no scenario is long enough to reach a second '
+                                    'block, so what happens at a block boundary was never analysed', node)
+
     def write_evidence(self, nviol):
         total = sum(self.rule_counts.values())
         discharged = total - len(self.violations)
